@@ -180,6 +180,7 @@ def run(prop: str, tier: str) -> int:
         sts = labelled(rep, max_nodes=3 if quick else 4, d=3, label="labelled")
         run_states(rep, prop, sts, "words", {"D": 3}, "c09")
         run_states(rep, prop, sts if not quick else sts[::2], "int", {"D": 3}, "c09-int-keys")   # int data_ids: ambiguous int keys
+        run_states(rep, prop, sts if not quick else sts[1::2], "unhash", {"D": 3}, "c09-unhashable")   # dicts + id callback
         if not quick:
             run_states(rep, prop, sts, "keyed", {"D": 3}, "c09")
             sts2 = labelled(rep, max_nodes=3, d=2, xids=(0, 11), label="labelled+ids")
@@ -205,6 +206,8 @@ def run(prop: str, tier: str) -> int:
         run_states(rep, prop, sts, "str", o, "c08")
         sts2 = labelled(rep, max_nodes=3 if quick else 4, d=2 if quick else 3, label="labelled-clones")
         run_states(rep, prop, sts2, "keyed", dict(o, full_max=3 if quick else 4), "c08-clones")
+        # Tree(forward_attrs=True) over data objects with a `kind` attribute of their own
+        run_states(rep, prop, sts2 if not quick else sts2[::2], "fwd", dict(o, full_max=3), "c08-fwd")
         sts3 = shapes(rep, max_nodes=3 if quick else 4, k=2, label="typed-shapes")
         run_states(rep, prop, sts3, "str+typed", dict(o, full_max=2 if quick else 3), "c08-typed")
         rep.assumptions = ["predicates answer per node identity; verdict forms rotate over: returned instance, raised "
